@@ -69,10 +69,9 @@ fn has_opt_table_member(s: &Schema, t: &Ty, depth: usize) -> bool {
         _ => {}
       }
     },
-    &mut |t1| {
-      if let Ty2::Name { name, .. } = &t1.t2 {
-        names.borrow_mut().push(name);
-      }
+    &mut |t1| match &t1.t2 {
+      Ty2::Name { name, .. } | Ty2::Unwrap { name, .. } | Ty2::ChoiceName { name, .. } => names.borrow_mut().push(name),
+      _ => {}
     },
   );
   if found {
@@ -148,10 +147,75 @@ pub fn has_dup_literal_key(s: &Schema) -> bool {
   dup
 }
 
+/// a map group with a literal-key member whose key also lies in the key domain of a type-domain member of the same
+/// group that carries explicit occurrence bounds: the pair is claimed greedily by the literal member and the bound
+/// of the other member is then judged without it (same root cause as C10-F1: no backtracking over claims)
+pub fn literal_key_in_bounded_table_domain(s: &Schema) -> bool {
+  use vcore::cmodel::{Grp, Lit};
+  fn group_hit(g: &Grp) -> bool {
+    for gc in &g.0 {
+      let mut lit_int = false;
+      let mut lit_text = false;
+      for en in gc {
+        let l = match &en.kind {
+          EntKind::Val { key: Some(Key::Bare(_)), .. } => Some(false),
+          EntKind::Val { key: Some(Key::Val(l)), .. } => Some(matches!(l, Lit::Int { .. })),
+          EntKind::Val { key: Some(Key::Arrow { t1, .. }), .. } => match (&t1.t2, &t1.op) {
+            (Ty2::Lit(l), None) => Some(matches!(l, Lit::Int { .. })),
+            _ => None,
+          },
+          _ => None,
+        };
+        match l {
+          Some(true) => lit_int = true,
+          Some(false) => lit_text = true,
+          None => {}
+        }
+      }
+      for en in gc {
+        if let EntKind::Val { key: Some(k), .. } = &en.kind {
+          if is_table_key(k) && en.occ.is_some() && vcore::sem::occ_bounds(&en.occ) != (0, None) {
+            let dom = match k {
+              Key::Arrow { t1, .. } => match &t1.t2 {
+                Ty2::Name { name, .. } => name.as_str(),
+                _ => "any",
+              },
+              _ => "any",
+            };
+            let int_dom = !matches!(dom, "tstr" | "text" | "bstr" | "bytes" | "bool" | "float" | "nil" | "null");
+            let text_dom = !matches!(dom, "uint" | "int" | "nint" | "number" | "integer" | "unsigned" | "bstr" | "bytes" | "bool" | "float" | "nil" | "null");
+            if (lit_int && int_dom) || (lit_text && text_dom) {
+              return true;
+            }
+          }
+        }
+      }
+    }
+    false
+  }
+  let mut hit = false;
+  walk_schema(
+    s,
+    &mut |_, _| {},
+    &mut |t1| {
+      if let Ty2::Map(g) = &t1.t2 {
+        if group_hit(g) {
+          hit = true;
+        }
+      }
+    },
+  );
+  hit
+}
+
 pub fn exclusions(ctx: &Ctx) -> impl Fn(&Schema, &CVal, Verdict, &V) -> Option<&'static str> {
   let opt_table = ctx.excl("cbor_optional_table_member_in_nested_map");
   let dup_keys = ctx.excl("cbor_duplicate_literal_keys_greedy");
+  let greedy = ctx.excl("cbor_type_domain_members_greedy_claim");
   move |s, _d, e, _g| {
+    if greedy && e == Verdict::Accept && literal_key_in_bounded_table_domain(s) {
+      return Some("cbor_type_domain_members_greedy_claim");
+    }
     if opt_table && e == Verdict::Accept && nested_opt_table(s) {
       return Some("cbor_optional_table_member_in_nested_map");
     }
